@@ -495,6 +495,9 @@ func (b *Built) ExpectRoot(e []interface{}) []interface{} {
 func (b *Built) CoversRoot() bool { return len(b.Idx) == len(b.RootE) }
 
 func (b *Built) HasGaps() bool {
+	if b.L.Final == "clone" && b.T != nil && !b.T.IsScalar() && b.T.DataSize() > len(b.Idx) {
+		return true // a clone of a strided view owns storage with the view's gaps
+	}
 	if b.Detached || len(b.Idx) == 0 {
 		return false
 	}
@@ -710,7 +713,7 @@ func genSliceStep(t *rapid.T, rank int, stepped bool, label string) LStep {
 
 // Layout kinds understood by genLayoutKind.
 var rmLayoutKinds = []string{"contig", "lazyT", "sliced", "stepsliced", "slicedT", "Tsliced", "picked", "pickslice", "materialized"}
-var c06LayoutKinds = []string{"contig", "lazyT", "sliced", "stepsliced", "materialized", "physT", "picked", "pickslice"}
+var c06LayoutKinds = []string{"contig", "lazyT", "sliced", "stepsliced", "materialized", "physT", "picked", "pickslice", "clonedview"}
 var cmLayoutKinds = []string{"cmraw", "cmconv", "cmraw+sliced", "cmraw+lazyT", "cmconv+sliced"}
 
 // genLayoutKind draws a recipe of the named kind for an array of the given rank.
